@@ -264,4 +264,39 @@ def stStep (s : StErr) (c : Child) : StErr :=
 def decodeStreamErr (ts : List Tok) : Option StErr :=
   (contentOf ts).map fun p => (childrenOf p.2).foldl stStep ⟨"", [], ""⟩
 
+/-! ### several token readers alive at the same time (round 5)
+
+A codec function that returns a reader converts its value into a buffer that is read lazily.
+`make v` creates reader number `n` (the count so far), `drain i` reads reader `i` to its end.
+With a buffer of its own per conversion (`pooled = false`: what the code does, there is no
+state outside the call) reader `i` reads buffer `i`; with one recycled scratch buffer
+(`pooled = true`) every conversion resets and refills buffer `0` and every reader reads it. -/
+namespace Readers
+
+structure St where
+  bufs : List (List Tok)
+  n : Nat
+  deriving DecidableEq, Repr
+
+def init : St := ⟨[], 0⟩
+
+def bufOf (pooled : Bool) (i : Nat) : Nat := if pooled then 0 else i
+
+def make (pooled : Bool) (s : St) (v : List Tok) : St :=
+  if pooled then ⟨[v], s.n + 1⟩ else ⟨s.bufs ++ [v], s.n + 1⟩
+
+def makeAll (pooled : Bool) : St → List (List Tok) → St
+  | s, [] => s
+  | s, v :: vs => makeAll pooled (make pooled s v) vs
+
+/-- read reader `i` to the end: what is left in its buffer; the buffer is empty afterwards -/
+def drain (pooled : Bool) (s : St) (i : Nat) : St × List Tok :=
+  (⟨s.bufs.set (bufOf pooled i) [], s.n⟩, s.bufs.getD (bufOf pooled i) [])
+
+def drainAll (pooled : Bool) : St → List Nat → List (List Tok)
+  | _, [] => []
+  | s, i :: is => (drain pooled s i).2 :: drainAll pooled (drain pooled s i).1 is
+
+end Readers
+
 end XmppModel.Stanza
